@@ -115,6 +115,88 @@ type SchedRun struct {
 	Probes      []Probe  `json:"probes"`
 }
 
+// OrderRun: the same exported genesis with the entries of every top-level record list of every module
+// reversed / shuffled, imported into a fresh application: the state built and the behaviour afterwards
+// must not depend on the order.
+type OrderRun struct {
+	Variant     string   `json:"variant"`
+	Permuted    []string `json:"permuted_lists"`
+	ImportPanic string   `json:"import_panic,omitempty"`
+	Diffs       []Diff   `json:"store_diffs_vs_unpermuted_import"`
+	Probes      []Probe  `json:"probes_unpermuted_vs_permuted"`
+}
+
+// lists whose order is kept, and why
+var keepOrder = map[string]string{
+	"customstaking.validators": "the validator set: its order is the order of the validator updates handed to the consensus engine",
+	"bank.supply":              "sdk.Coins: must be sorted by denom to be valid",
+	"genutil.gen_txs":          "transactions are applied in list order by definition",
+}
+
+// permuteGenesis permutes every top-level array of objects of every module's genesis state (arrays of
+// scalars and arrays nested inside records - coins, permission lists, token lists - are values, not record
+// lists, and keep their order). JSON object (map) order is already arbitrary for the Go decoder.
+func permuteGenesis(state []byte, variant string, rng *hx.Rng) ([]byte, []string) {
+	var m map[string]json.RawMessage
+	if err := json.Unmarshal(state, &m); err != nil {
+		return state, nil
+	}
+	var done []string
+	mods := make([]string, 0, len(m))
+	for k := range m {
+		mods = append(mods, k)
+	}
+	sort.Strings(mods)
+	for _, mod := range mods {
+		var g map[string]json.RawMessage
+		if json.Unmarshal(m[mod], &g) != nil {
+			continue
+		}
+		fields := make([]string, 0, len(g))
+		for k := range g {
+			fields = append(fields, k)
+		}
+		sort.Strings(fields)
+		changed := false
+		for _, fld := range fields {
+			if _, keep := keepOrder[mod+"."+fld]; keep {
+				continue
+			}
+			var arr []json.RawMessage
+			if json.Unmarshal(g[fld], &arr) != nil || len(arr) < 2 {
+				continue
+			}
+			var probe map[string]json.RawMessage
+			if json.Unmarshal(arr[0], &probe) != nil { // not an array of objects
+				continue
+			}
+			if _, d := probe["denom"]; d && len(probe) == 2 { // a Coins value
+				continue
+			}
+			if variant == "reversed" {
+				for i, j := 0, len(arr)-1; i < j; i, j = i+1, j-1 {
+					arr[i], arr[j] = arr[j], arr[i]
+				}
+			} else {
+				for i := len(arr) - 1; i > 0; i-- {
+					j := rng.Intn(i + 1)
+					arr[i], arr[j] = arr[j], arr[i]
+				}
+			}
+			bz, _ := json.Marshal(arr)
+			g[fld] = bz
+			changed = true
+			done = append(done, mod+"."+fld)
+		}
+		if changed {
+			bz, _ := json.Marshal(g)
+			m[mod] = bz
+		}
+	}
+	out, _ := json.MarshalIndent(m, "", " ")
+	return out, done
+}
+
 type Case struct {
 	Index        int        `json:"index"`
 	Seed         uint64     `json:"seed"`
@@ -131,6 +213,7 @@ type Case struct {
 	Export2      []string   `json:"second_export_differs_in"`
 	Probes       []Probe    `json:"probes"`
 	Scheduled    []SchedRun `json:"restart_schedules"`
+	Orders       []OrderRun `json:"permuted_genesis_imports"`
 	Snap         [2]Snap    `json:"snapshots"`
 }
 
@@ -308,6 +391,27 @@ func runCase(idx int, seed uint64, f Features) Case {
 		}
 		sort.Strings(cs.Export2)
 	}
+	// metamorphic obligation on import: permuted genesis lists build the same state and behave alike
+	for vi, variant := range []string{"reversed", "shuffled"} {
+		if !(allSchedules || idx == 0 || idx%2 == vi) {
+			continue
+		}
+		run := OrderRun{Variant: variant}
+		var perm []byte
+		perm, run.Permuted = permuteGenesis(patched, variant, hx.NewRng(seed*7+uint64(vi)))
+		bp, pp := newChainFromExport(c, perm)
+		if pp != "" {
+			run.ImportPanic = pp
+			cs.Orders = append(cs.Orders, run)
+			continue
+		}
+		uncommitted[bp] = true
+		run.Diffs, _ = diffStores(db, bp.DumpStores(bp.Ctx()))
+		bu, _ := newChainFromExport(c, patched)
+		uncommitted[bu] = true
+		run.Probes = RunProbes(bu, bp, f, false)
+		cs.Orders = append(cs.Orders, run)
+	}
 	appHash := fmt.Sprintf("%x", c.App.LastCommitID().Hash)
 	cs.Probes = RunProbes(c, c2, f, false)
 	// further restart schedules: the history is replayed on a fresh original chain (the first one has
@@ -412,6 +516,17 @@ func main() {
 					m = "!!"
 				}
 				fmt.Printf("  %s probe %-32s A=%s | B=%s\n", m, p.Name, p.A, p.B)
+			}
+			for _, or := range cs.Orders {
+				fmt.Printf("  order %-9s lists=%d import panic %q\n", or.Variant, len(or.Permuted), or.ImportPanic)
+				for _, d := range or.Diffs {
+					fmt.Printf("  !! order@%s %-8s %-16s %-40s n=%d %s\n", or.Variant, d.Kind, d.Store, d.Class, d.N, d.Ex)
+				}
+				for _, p := range or.Probes {
+					if p.A != p.B {
+						fmt.Printf("  !! order@%s probe %-32s A=%s | B=%s\n", or.Variant, p.Name, p.A, p.B)
+					}
+				}
 			}
 			for _, sr := range cs.Scheduled {
 				fmt.Printf("  schedule %-24s replay=%v import panic %q\n", sr.Schedule.Name, sr.ReplayOK, sr.ImportPanic)
